@@ -197,7 +197,13 @@ def configs(ctx):
     out = []
     all_pairs = (("E1", "S1"), ("E2", "S1"), ("E1", "S2"), ("E2", "S2"))
     out.append(("ttl3-refresh2-two-pairs", dict(sid=sid, advs=base, ttl=3, refresh=2, pairs=all_pairs[:2],
-                                                deviations=ctx.pick(1, 2), fine=1), CLOSURE))
+                                                deviations=1, fine=1), CLOSURE))
+    # three calls inside one loop iteration (two held calls + one): one pair is enough
+    out.append(("ttl3-refresh2-one-pair-3-calls", dict(sid=sid, advs=(None, "next"), ttl=3, refresh=2, pairs=all_pairs[:1],
+                                                       deviations=ctx.pick(2, 3), fine=0), CLOSURE))
+    if ctx.thorough:
+        out.append(("ttl3-refresh2-two-pairs-dev2", dict(sid=sid, advs=base, ttl=3, refresh=2, pairs=all_pairs[:2],
+                                                         deviations=2, fine=1), CLOSURE))
     out.append(("ttl3-refresh2-four-pairs", dict(sid=sid, advs=(None, "next"), ttl=3, refresh=2, pairs=all_pairs,
                                                  deviations=ctx.pick(0, 1), fine=0), ctx.pick(5, 8)))
     out.append(("ttl-forever-no-refresh", dict(sid=sid, advs=(None, "half"), ttl=INF, refresh=None, pairs=all_pairs[1:3],
